@@ -19,9 +19,11 @@ func paginate2(itemsPtr any, itemsPerPage int, page int) int {
 		pageCount++
 	}
 
-	minVal := min(page*itemsPerPage, itemsLen)
+	// compute the bounds in 64 bits: page and itemsPerPage can both be up to
+	// 2^31-1 and their product overflows int on 32-bit platforms.
+	minVal := int(min(int64(page)*int64(itemsPerPage), int64(itemsLen)))
 
-	maxVal := min((page+1)*itemsPerPage, itemsLen)
+	maxVal := int(min((int64(page)+1)*int64(itemsPerPage), int64(itemsLen)))
 
 	ritems.Set(ritems.Slice(minVal, maxVal))
 
